@@ -102,6 +102,19 @@ theorem translated_failure_only_to_handler (σ : Env) (h : σ "err" ≠ 0) :
 theorem translated_handler_only_for_failures (σ : Env) (h : σ "err" = 0) :
     ∀ a, ("nc.handleFailure", a) ∉ (obs Trans.handleResult σ).calls := by
   rw [C01.translated_handleResult]; by_cases h2 : σ "len(result)" = 0 <;> simp [h, h2]
+
+/-- handleFailure: the failure is counted once; with an error handler configured, the report is built from the very event
+and error handed in and delivered to that handler through deliverToChild (so its discard_on_full_buffer setting applies - F4);
+without one nothing else happens -/
+theorem translated_handleFailure (σ : Env) :
+    obs Trans.handleFailure σ =
+      ⟨("metrics.Node().Failures.WithLabelValues(nc.Config.ID).Inc", []) ::
+        (if σ "nc.ErrorHandler" ≠ 0 then
+          [("new firebolt.EventError {Event,Err}", [σ "event", σ "err"]),
+           ("nc.deliverToChild", [σ "nc.ErrorHandler", σ "[]firebolt.Event{{ Payload: eventError, Created: time.Now(), }}"])]
+         else []), none, false⟩ := by
+  by_cases h : σ "nc.ErrorHandler" = 0 <;> minigo_simp [Trans.handleFailure, h]
+
 end Translated
 
 theorem closure_unchanged : GeneratedClo.C02 = ExpectedClo.C02 := by rfl
